@@ -2,6 +2,7 @@
 use crate::core::*;
 use crate::kx::{self, Capture, RunOpts};
 use crate::pgen::{Src, choice_stream};
+#[allow(unused_imports)]
 use koto_runtime::{ErrorKind, Result, derive::*, prelude::*};
 use serde::{Deserialize, Serialize};
 use serde_json::{Value, json};
